@@ -463,6 +463,12 @@ def run(ctx):
     from ..order import SubCtx as _Sub10
     from . import c11 as _c11
     _c11.run(_Sub10(ctx, 'C10.3-eq-hash-order-agree', 'c11', allow=('C11.3-eq-hash-fields',)))
+    # ... and the term-level order places identifiers as their logical fields say, in both term types
+    ctx.rule('C10.3-identifiers-in-the-term-order', 'every pair of term variants that involves a pid, a port or a reference is ordered by rank or by an arm that compares (never the constant Equal), and the zero-copy type '
+             'orders it as the owned type does (rules C11.1-pairs and C11.5-twin-pairs re-run for these pairs): a port that compares Equal to every pid, or references compared over their common words only, '
+             'are merged as map keys and lost on the way back', floor=100)
+    _idv = ('Pid', 'Port', 'Reference')
+    _c11.run(_Sub10(ctx, 'C10.3-identifiers-in-the-term-order', 'c11', allow=('C11.1-pairs', 'C11.5-twin-pairs'), inst=lambda i_: any(v_ in i_ for v_ in _idv)))
 
     from ..families import check_sibling_ctors as _sib
     ctx.rule('C10.1-identifier-constructors', 'for pids, ports and references the constructor that attaches the raw node-local bytes stores the logical fields exactly as the plain constructor does', floor=3)
